@@ -48,139 +48,144 @@ Proof. unfold BTreeSpec.expect. rewrite out_eqb_refl. reflexivity. Qed.
 Lemma Inv_sorted (s : state) : Inv s -> ssorted V (abs_of s).
 Proof. intros H. exact (abs_sorted V vlen _ _ _ _ H). Qed.
 
+(* every in-scope operation from a well-formed tree either takes the zero-separator panic branch (outcome code
+   F_ZSEP, result RPanic, rejected by the specification) or is regular and returns what an ordered map returns *)
 Definition step_post (s : state) (o : op) : Prop :=
   match spec_check (abs_of s) o (snd (fst (step s o))) with
-  | SOk m' => m' = abs_of (fst (fst (step s o))) /\ Inv (fst (fst (step s o)))
-  | SBad => False
+  | SOk m' => snd (step s o) = 0 /\ m' = abs_of (fst (fst (step s o))) /\ Inv (fst (fst (step s o)))
+  | SBad => snd (step s o) = F_ZSEP
   | SOut => True
   end.
 
-Lemma ins_post_spec m (s : state) (e : entry) res :
-  Inv s -> ins_post V vlen m s e res ->
-  match om_get V (fst e) (abs_of s) with
-  | Some _ => expect (snd (fst res)) (dup_out V m) (abs_of s)
-  | None => expect (snd (fst res)) (ok_out V m) (om_ins V e (abs_of s))
-  end = SOk (abs_of (fst (fst res))) /\ Inv (fst (fst res)).
+Lemma refusal_ok_of (e : entry) (m : list entry) : (exists c, In c (e :: m) /\ ~ half_okP V vlen c) -> refusal_ok V vlen e m = true.
 Proof.
-  intros HI [HI' Hc]. split; [|exact HI']. pose proof (Inv_sorted s HI) as Hs. pose proof (Inv_sorted _ HI') as Hs'.
-  destruct Hc as [(Hin & Ha & Hr) | (Hp & Hr)].
-  - destruct (om_get V (fst e) (abs_of s)) eqn:E; [|apply om_get_none in E; contradiction].
-    rewrite Hr, Ha. apply expect_same.
-  - destruct (om_ins_unique V e _ _ Hs Hs' Hp) as [Hu Hn]. apply om_get_none in Hn. rewrite Hn, Hr, Hu. apply expect_same.
+  intros (c & Hc & Hbig). unfold refusal_ok. assert (Hb : half_ok V vlen c = false).
+  { unfold half_ok. apply Z.leb_gt. unfold half_okP in Hbig. lia. }
+  destruct Hc as [<- | Hc]; [rewrite Hb; reflexivity|]. apply orb_true_iff. right. apply existsb_exists. exists c. split; [exact Hc|]. rewrite Hb. reflexivity.
 Qed.
+
+Lemma ins_res_spec m (s : state) (e : entry) res :
+  Inv s -> ins_res_ok V vlen m s e res ->
+  match (match om_get V (fst e) (abs_of s) with
+         | Some _ => expect (snd (fst res)) (dup_out V m) (abs_of s)
+         | None => expect_ins V vlen veqb (snd (fst res)) (ok_out V m) e (abs_of s)
+         end) with
+  | SOk m' => snd res = 0 /\ m' = abs_of (fst (fst res)) /\ Inv (fst (fst res))
+  | SBad => snd res = F_ZSEP
+  | SOut => True
+  end.
+Proof.
+  intros HI [[Hz Hr] | [Hf [HI' Hc]]].
+  - rewrite Hr. destruct (om_get V (fst e) (abs_of s)); destruct m; cbn; exact Hz.
+  - pose proof (Inv_sorted s HI) as Hs. pose proof (Inv_sorted _ HI') as Hs'.
+    destruct Hc as [(Hin & Ha & Hr) | [(Hp & Hr) | (Ha & Hr & Habsent & Hbig)]].
+    + destruct (om_get V (fst e) (abs_of s)) eqn:E; [|apply om_get_none in E; contradiction].
+      rewrite Hr, expect_same. repeat split; [exact Hf | symmetry; exact Ha | exact HI'].
+    + destruct (om_ins_unique V e _ _ Hs Hs' Hp) as [Hu Hn]. apply om_get_none in Hn. rewrite Hn, Hr.
+      assert (Hx : expect_ins V vlen veqb (ok_out V m) (ok_out V m) e (abs_of s) = SOk (om_ins V e (abs_of s))).
+      { destruct m; cbn [ok_out BTreeSpec.expect_ins]; apply expect_same. }
+      rewrite Hx. repeat split; [exact Hf | symmetry; exact Hu | exact HI'].
+    + apply om_get_none in Habsent. rewrite Habsent, Hr. cbn [BTreeSpec.expect_ins]. rewrite (refusal_ok_of e _ Hbig).
+      repeat split; [exact Hf | symmetry; exact Ha | exact HI'].
+Qed.
+
+Lemma fits_cell (e : entry) : fits_page V vlen e = true -> cell_fits V vlen e.
+Proof. unfold fits_page, cell_fits. apply Z.leb_le. Qed.
 
 Ltac norm s := change (BTree.abs V (depth V (root s)) (root s)) with (BTree.abs_of V s) in *.
 
-Lemma step_ok (s : state) (o : op) : Inv s -> snd (step s o) = 0 -> step_post s o.
+Lemma step_ok (s : state) (o : op) : Inv s -> step_post s o.
 Proof.
-  intros HI Hf. pose proof (Inv_sorted s HI) as Hs. assert (HB : bounded (depth V (root s)) None None (root s)) by exact HI.
+  intros HI. pose proof (Inv_sorted s HI) as Hs. assert (HB : bounded (depth V (root s)) None None (root s)) by exact HI.
   unfold step_post. destruct o as [k v | k v | k v | k v | k | k | lim | lim | k lim | hh].
   - (* insert *)
-    cbn [BTree.step BTreeSpec.spec_check] in *. destruct (negb (fits_page V vlen (k, v))); [exact I|].
-    destruct (ins_post_spec MInsert s (k, v) _ HI (op_insert_ok V vlen vlen_nonneg MInsert s (k, v) HI ltac:(discriminate) Hf)) as [H1 H2].
-    cbn [fst dup_out ok_out] in H1. rewrite H1. split; [reflexivity | exact H2].
+    cbn [BTree.step BTreeSpec.spec_check] in *. destruct (fits_page V vlen (k, v)) eqn:Ef; cbn [negb]; [|exact I].
+    exact (ins_res_spec MInsert s (k, v) _ HI (op_insert_ok V vlen vlen_nonneg MInsert s (k, v) HI (fits_cell _ Ef) ltac:(discriminate))).
   - (* insert_if_not_exists *)
-    cbn [BTree.step BTreeSpec.spec_check] in *. destruct (negb (fits_page V vlen (k, v))); [exact I|].
-    destruct (ins_post_spec MIine s (k, v) _ HI (op_insert_ok V vlen vlen_nonneg MIine s (k, v) HI ltac:(discriminate) Hf)) as [H1 H2].
-    cbn [fst dup_out ok_out] in H1. rewrite H1. split; [reflexivity | exact H2].
+    cbn [BTree.step BTreeSpec.spec_check] in *. destruct (fits_page V vlen (k, v)) eqn:Ef; cbn [negb]; [|exact I].
+    exact (ins_res_spec MIine s (k, v) _ HI (op_insert_ok V vlen vlen_nonneg MIine s (k, v) HI (fits_cell _ Ef) ltac:(discriminate))).
   - (* insert_append *)
-    cbn [BTree.step BTreeSpec.spec_check] in *. destruct (negb (fits_page V vlen (k, v))); [exact I|]. cbn [orb].
+    cbn [BTree.step BTreeSpec.spec_check] in *. destruct (fits_page V vlen (k, v)) eqn:Ef; cbn [negb orb]; [|exact I].
     destruct (om_all_lt V k (abs_of s)) eqn:Eall; [|exact I]. cbn [negb].
     pose proof (proj1 (om_all_lt_spec V _ _) Eall) as Hall.
-    destruct (ins_post_spec MAppend s (k, v) _ HI (op_insert_ok V vlen vlen_nonneg MAppend s (k, v) HI (fun _ => Hall) Hf)) as [H1 H2].
-    cbn [fst dup_out ok_out] in H1. destruct (om_get V k (abs_of s)) as [old|] eqn:Eg.
-    + exfalso. apply om_get_some_key in Eg. apply in_map_iff in Eg as (x & Hx & Hxin). specialize (Hall _ Hxin). rewrite Hx in Hall. exact (klt_irrefl _ Hall).
-    + rewrite H1. split; [reflexivity | exact H2].
+    pose proof (ins_res_spec MAppend s (k, v) _ HI (op_insert_ok V vlen vlen_nonneg MAppend s (k, v) HI (fits_cell _ Ef) (fun _ => Hall))) as H1.
+    cbn [fst] in H1. destruct (om_get V k (abs_of s)) as [old|] eqn:Eg; [|exact H1].
+    exfalso. apply om_get_some_key in Eg. apply in_map_iff in Eg as (x & Hx & Hxin). specialize (Hall _ Hxin). rewrite Hx in Hall. exact (klt_irrefl _ Hall).
   - (* update *)
     cbn [BTree.step BTreeSpec.spec_check] in *. destruct (negb (fits_page V vlen (k, v))); [exact I|].
     pose proof (upd_ok V vlen vlen_nonneg _ (root s) k v None None HB I I) as Hu.
-    destruct (upd V vlen (depth V (root s)) (root s) k v) as [t b | t | er]; cbn [fst snd BTreeDel.ures_ok] in *.
-    + destruct b.
-      * destruct Hu as [Hb (old & rest & P1 & P2)].
-        pose proof (abs_sorted V vlen _ _ _ _ Hb) as Hs'.
-        destruct (om_upd_unique V _ _ _ k v old Hs Hs' P1 P2) as [Hu1 Hu2]. rewrite Hu2.
-        split; [rewrite (abs_of_bounded V vlen _ _ _ _ Hb); symmetry; exact Hu1 | eapply Inv_of_bounded; exact Hb].
-      * destruct Hu as (Hb & P & Hgrow). pose proof (abs_sorted V vlen _ _ _ _ Hb) as Hs'.
-        assert (Ha : abs_of (mkState t (npages s) (hint s)) = abs_of s).
-        { rewrite (abs_of_bounded V vlen _ _ _ _ Hb). apply ssorted_perm_eq; assumption. }
-        destruct (om_get V k (abs_of s)) as [old|] eqn:Eg.
-        -- apply om_get_in in Eg; [|exact Hs]. specialize (Hgrow _ Eg). destruct (Z.ltb_spec (vlen old) (vlen v)); [|lia].
-           split; [symmetry; exact Ha | eapply Inv_of_bounded; exact Hb].
-        -- rewrite expect_same. split; [symmetry; exact Ha | eapply Inv_of_bounded; exact Hb].
-    + discriminate.
-    + exfalso. exact (err_flag_nonzero _ Hf).
+    destruct (upd V vlen (depth V (root s)) (root s) k v) as [t b | t | er]; cbn [fst snd BTreeDel.ures_ok] in *; try contradiction.
+    destruct b.
+    + destruct Hu as [Hb (old & rest & P1 & P2)].
+      pose proof (abs_sorted V vlen _ _ _ _ Hb) as Hs'.
+      destruct (om_upd_unique V _ _ _ k v old Hs Hs' P1 P2) as [Hu1 Hu2]. rewrite Hu2.
+      split; [reflexivity|]. split; [rewrite (abs_of_bounded V vlen _ _ _ _ Hb); symmetry; exact Hu1 | eapply Inv_of_bounded; exact Hb].
+    + destruct Hu as (Hb & P & Hgrow). pose proof (abs_sorted V vlen _ _ _ _ Hb) as Hs'.
+      assert (Ha : abs_of (mkState t (npages s) (hint s)) = abs_of s).
+      { rewrite (abs_of_bounded V vlen _ _ _ _ Hb). apply ssorted_perm_eq; assumption. }
+      destruct (om_get V k (abs_of s)) as [old|] eqn:Eg.
+      * apply om_get_in in Eg; [|exact Hs]. specialize (Hgrow _ Eg). destruct (Z.ltb_spec (vlen old) (vlen v)); [|lia].
+        split; [reflexivity|]. split; [symmetry; exact Ha | eapply Inv_of_bounded; exact Hb].
+      * rewrite expect_same. split; [reflexivity|]. split; [symmetry; exact Ha | eapply Inv_of_bounded; exact Hb].
   - (* delete *)
     cbn [BTree.step BTreeSpec.spec_check] in *.
     pose proof (del_ok V vlen vlen_nonneg _ (root s) k None None HB I I) as Hd.
-    destruct (del V vlen (depth V (root s)) (root s) k) as [t | | er]; cbn [fst snd BTreeDel.dres_ok] in *.
+    destruct (del V vlen (depth V (root s)) (root s) k) as [t | | er]; cbn [fst snd BTreeDel.dres_ok] in *; try contradiction.
     + destruct Hd as [Hb (v & P)]. pose proof (abs_sorted V vlen _ _ _ _ Hb) as Hs'.
       destruct (om_del_unique V _ _ k v Hs Hs' P) as [H1 H2]. norm s. rewrite H2, expect_same.
-      split; [rewrite (abs_of_bounded V vlen _ _ _ _ Hb); symmetry; exact H1 | eapply Inv_of_bounded; exact Hb].
-    + apply om_get_none in Hd. norm s. rewrite Hd, expect_same. split; [reflexivity | exact HI].
-    + exfalso. exact (err_flag_nonzero _ Hf).
+      split; [reflexivity|]. split; [rewrite (abs_of_bounded V vlen _ _ _ _ Hb); symmetry; exact H1 | eapply Inv_of_bounded; exact Hb].
+    + apply om_get_none in Hd. norm s. rewrite Hd, expect_same. split; [reflexivity|]. split; [reflexivity | exact HI].
   - (* get *)
     cbn [BTree.step BTreeSpec.spec_check] in *.
     destruct (get_ok V vlen _ None None (root s) k HB I I) as (l & Hr & Hg). rewrite Hr in *. cbn [fst snd].
-    rewrite Hg. norm s. rewrite expect_same. split; [reflexivity | exact HI].
+    rewrite Hg. norm s. rewrite expect_same. split; [reflexivity|]. split; [reflexivity | exact HI].
   - (* forward scan *)
-    cbn [BTree.step BTreeSpec.spec_check] in *.
-    pose proof (fwd_ok V (depth V (root s)) (root s)) as Hfw.
-    destruct (scan_from V (leaves V (depth V (root s)) (root s)) 0) as [es rest]. cbn [fst snd] in *.
-    destruct (nonempty_left V rest); [discriminate|]. rewrite (Hfw eq_refl). norm s. rewrite expect_same.
-    split; [reflexivity | exact HI].
+    cbn [BTree.step BTreeSpec.spec_check fst snd] in *. rewrite (fwd_ok V vlen _ None None (root s) HB). norm s. rewrite expect_same.
+    split; [reflexivity|]. split; [reflexivity | exact HI].
   - (* backward scan *)
-    cbn [BTree.step BTreeSpec.spec_check] in *. destruct (lempty V (last_leaf V (root s))) eqn:El.
-    + cbn [fst snd] in *. destruct (nonempty_left V (leaves V (depth V (root s)) (root s))) eqn:En; [discriminate|].
-      assert (Ha : abs_of s = []) by exact (nonempty_left_false V _ En).
-      rewrite Ha. cbn [rev]. rewrite firstn_nil, expect_same. split; [reflexivity | exact HI].
-    + pose proof (bwd_ok V vlen _ None None (root s) HB El) as Hbw. cbv zeta in Hbw.
-      destruct (bwd_walk V (length (leaves V (depth V (root s)) (root s))) (depth V (root s)) (root s) (last_leaf V (root s))) as [es st].
-      cbn [fst snd] in *. destruct (Z.eqb_spec st 0) as [E0 | Hn0]; [subst st|].
-      * cbn. rewrite (Hbw (or_introl eq_refl)). norm s. rewrite expect_same. split; [reflexivity | exact HI].
-      * destruct (Z.eqb_spec st 1) as [E1 | Hn1]; [subst st|].
-        -- destruct (Nat.ltb (length es) (length (abs (depth V (root s)) (root s)))) eqn:Elen; [discriminate|].
-           cbn. rewrite (Hbw (or_intror (conj eq_refl eq_refl))). norm s. rewrite expect_same. split; [reflexivity | exact HI].
-        -- destruct (st =? 2); discriminate.
+    cbn [BTree.step BTreeSpec.spec_check] in *. pose proof (bwd_ok V vlen _ None None (root s) HB) as Hbw.
+    destruct (if lempty V (last_leaf V (root s)) then rnl V (depth V (root s)) (root s) else Some (last_leaf V (root s))) as [l|].
+    + rewrite Hbw. cbn [fst snd]. change (0 =? 2) with false. change (0 =? 0) with true. cbn iota. norm s. rewrite expect_same.
+      split; [reflexivity|]. split; [reflexivity | exact HI].
+    + cbn [fst snd]. norm s. rewrite Hbw. cbn [rev]. rewrite firstn_nil, expect_same. split; [reflexivity|]. split; [reflexivity | exact HI].
   - (* seek scan *)
-    cbn [BTree.step BTreeSpec.spec_check] in *.
-    pose proof (seek_ok V vlen _ None None (root s) k HB I I) as Hsk. cbv zeta in Hsk.
-    destruct (scan_from V (seek_leaves V (depth V (root s)) (root s) k)
-               match seek_leaves V (depth V (root s)) (root s) k with l :: _ => snd (lfind V k (lcells l)) | [] => 0%nat end) as [es rest].
-    cbn [fst snd] in *. destruct (nonempty_left V rest); [discriminate|]. rewrite (Hsk eq_refl). norm s. rewrite expect_same.
-    split; [reflexivity | exact HI].
+    cbn [BTree.step BTreeSpec.spec_check fst snd] in *.
+    pose proof (seek_ok V vlen _ None None (root s) k HB I I) as Hsk. cbv zeta in Hsk. rewrite Hsk. norm s. rewrite expect_same.
+    split; [reflexivity|]. split; [reflexivity | exact HI].
   - (* reopen *)
-    cbn [BTree.step BTreeSpec.spec_check fst snd]. rewrite expect_same. split; [reflexivity | exact HI].
+    cbn [BTree.step BTreeSpec.spec_check fst snd]. rewrite expect_same. split; [reflexivity|]. split; [reflexivity | exact HI].
 Qed.
 
-Lemma run_refines_l : forall (ops : list op) (s : state), Inv s -> all_clear V (fst (run s ops)) = true ->
+Lemma run_refines_l : forall (ops : list op) (s : state), Inv s -> no_zsep V (fst (run s ops)) = true ->
   spec_run V vlen veqb (abs_of s) (combine ops (map fst (fst (run s ops)))) = true.
 Proof.
   induction ops as [|o r IH]; intros s HI Hc; [reflexivity|]. cbn [BTree.run] in *.
   pose proof (step_ok s o HI) as Hst. unfold step_post in Hst.
-  destruct (step s o) as [[s' ot] f] eqn:Es. destruct (run s' r) as [res sf] eqn:Er. cbn [fst snd map combine all_clear forallb BTreeSpec.spec_run] in *.
-  apply andb_true_iff in Hc as [Hf Hc]. apply Z.eqb_eq in Hf. specialize (Hst Hf).
+  destruct (step s o) as [[s' ot] f] eqn:Es. destruct (run s' r) as [res sf] eqn:Er. cbn [fst snd map combine no_zsep forallb BTreeSpec.spec_run] in *.
+  apply andb_true_iff in Hc as [Hf Hc]. apply negb_true_iff, Z.eqb_neq in Hf.
   destruct (spec_check (abs_of s) o ot) as [m' | |]; [|contradiction | reflexivity].
-  destruct Hst as [-> HI']. specialize (IH s' HI'). rewrite Er in IH. cbn [fst] in IH. apply IH. exact Hc.
+  destruct Hst as (_ & -> & HI'). specialize (IH s' HI'). rewrite Er in IH. cbn [fst] in IH. apply IH. exact Hc.
 Qed.
 
-Lemma run_final_l : forall (ops : list op) (s : state) mf, Inv s -> all_clear V (fst (run s ops)) = true ->
+Lemma run_final_l : forall (ops : list op) (s : state) mf, Inv s ->
   spec_final V vlen veqb (abs_of s) (combine ops (map fst (fst (run s ops)))) = Some mf ->
-  Inv (snd (run s ops)) /\ abs_of (snd (run s ops)) = mf.
+  Inv (snd (run s ops)) /\ abs_of (snd (run s ops)) = mf /\ all_clear V (fst (run s ops)) = true.
 Proof.
-  induction ops as [|o r IH]; intros s mf HI Hc Hfin.
-  - cbn in *. injection Hfin as <-. split; [exact HI | reflexivity].
+  induction ops as [|o r IH]; intros s mf HI Hfin.
+  - cbn in *. injection Hfin as <-. split; [exact HI | split; reflexivity].
   - cbn [BTree.run] in *. pose proof (step_ok s o HI) as Hst. unfold step_post in Hst.
     destruct (step s o) as [[s' ot] f] eqn:Es. destruct (run s' r) as [res sf] eqn:Er. cbn [fst snd map combine all_clear forallb BTreeSpec.spec_final] in *.
-    apply andb_true_iff in Hc as [Hf Hc]. apply Z.eqb_eq in Hf. specialize (Hst Hf).
-    destruct (spec_check (abs_of s) o ot) as [m' | |]; [|contradiction | discriminate].
-    destruct Hst as [-> HI']. specialize (IH s' mf HI'). rewrite Er in IH. cbn [fst snd] in IH. apply IH; assumption.
+    destruct (spec_check (abs_of s) o ot) as [m' | |]; [|discriminate | discriminate].
+    destruct Hst as (-> & -> & HI'). specialize (IH s' mf HI'). rewrite Er in IH. cbn [fst snd] in IH.
+    destruct (IH Hfin) as (I1 & I2 & I3). split; [exact I1|]. split; [exact I2|]. unfold all_clear in *. cbn [forallb snd]. rewrite I3. reflexivity.
 Qed.
 
 (* the empty tree BTree::create makes *)
 Lemma init_inv rootpg np : Inv (init_state V rootpg np) /\ abs_of (init_state V rootpg np) = [].
 Proof.
   split; [|reflexivity]. unfold BTreeInv.Inv, init_state. cbn [root depth BTreeInv.bounded]. unfold BTreeInv.leaf_ok. cbn [lcells].
-  split; [constructor|]. split; [constructor|]. unfold leaf_sizes, BTree.lcount. cbn [lcells lfe lfrag length map]. unfold sumz, LEAF_START, SLOT, PAGE. cbn. lia.
+  split; [constructor|]. split; [constructor|]. unfold leaf_sizes, BTree.lcount. cbn [lcells lfe lfrag length map]. unfold sumz, LEAF_START, SLOT, PAGE. cbn.
+  repeat split; lia.
 Qed.
 
 End M.
